@@ -25,8 +25,33 @@
   learners accept with DataArray hand-over) and `entries_count_mixed` for any
   mix at keys the first call writes; `entries_late` gives the exact list
   otherwise.
+
+  TRUTHFULNESS (`ndl_chain_reports`, PyndlProofs/AttrsNdl.lean): the theorems
+  above are about what `_attributes` does with the strings it is handed; that
+  the string under `number_events` IS the number of events the learner trained
+  on needs the learner.  `ndlCallMeta` composes the model of `ndl.ndl`
+  (`ndlCall`: it returns the count the chunk writer reported) with the attribute
+  model (`mkCall .ndl`, `attributes`) as ndl.py:299-305 does; for every chain of
+  such calls that runs through, entry `i` of `number_events` is the decimal
+  string of the number of events of file `i`, and `event_path`, `method`,
+  `alpha`, `betas`, `lambda` hold the values of call `i`.  No hypothesis on
+  policies, sizes or weights (`ndlCall_count`: a successful call returns
+  exactly `es.length`).  The same composition for the other learners
+  (`dict_ndl`, `wh.wh`, `dict_wh`) is NOT done: their `number_events` is checked
+  by the differential run only.
+
+  ONE ENTRY PER CALL, from arbitrary starting attrs (`call_appends_one_entry`,
+  `chain_appends_from`): a first call that is handed weights with user
+  attributes; chains of any length.
+
+  Hypotheses on supplied strings (DESIGN §7): `'|' ∉ v` and `NoTrailingSpace v`
+  for every supplied value `v` that is to be read back by splitting at `' | '`
+  and stripping; decimal count strings and the method names satisfy them
+  (`bar_not_mem_decStr`, …).
 -/
 import PyndlProofs.Attrs
+import PyndlProofs.AttrsNdl
+import PyndlModel.Generated
 
 namespace Pyndl.C16
 open Pyndl.Attrs List
@@ -71,21 +96,11 @@ theorem entries_count_mixed (c₀ : Call) (rest : List Call) (k : Key)
     ∃ s, stored (c₀ :: rest) k = some s ∧
       splitBar s = (c₀ :: rest).map (entryOf k) ∧
       (splitBar s).length = rest.length + 1 := by
-  obtain ⟨v, hv⟩ := Option.isSome_iff_exists.mp hk
-  have hE : get? (runChainE c₀ rest) k = some ((c₀ :: rest).map (entryOf k)) := by
-    rw [get?_runChainE, hv]
-    simp only [Option.map_some, foldl_stepE_some, List.map_cons, List.singleton_append]
-    simp [entryOf, hv]
   have hb : ∀ x ∈ (c₀ :: rest).map (entryOf k), '|' ∉ x := by
     intro x hx
     obtain ⟨c, hc, rfl⟩ := List.mem_map.mp hx
-    cases hr : get? c.raw k with
-    | none => rw [entryOf_of_lacks c k hr]; simp
-    | some v' =>
-      rw [entryOf_of_raw c k v' hr]
-      exact bar_not_mem_padRight _ _ (hbar c hc v' hr)
-  refine ⟨joinSep ((c₀ :: rest).map (entryOf k)), ?_, ?_, ?_⟩
-  · rw [stored_is_join, hE]; rfl
+    exact bar_not_mem_entryOf c k (hbar c hc)
+  refine ⟨joinSep ((c₀ :: rest).map (entryOf k)), stored_chain_present c₀ rest k hk, ?_, ?_⟩
   · exact splitBar_joinSep _ (by simp) hb
   · rw [splitBar_joinSep _ (by simp) hb]; simp
 
@@ -149,7 +164,201 @@ theorem reports_call (c₀ : Call) (rest : List Call) (k : Key)
   simp only [Option.map_some, Function.comp]
   rw [entryOf_of_raw c k v hv, rstrip_padRight _ _ hnt]
 
-/-- what `ndl._attributes` reports under the six keys of the property: the
+/-! ## one entry per call, from arbitrary starting attrs -/
+
+/-- **each continued call appends exactly one entry to every key present.**
+    For ANY attrs `old` on the given weights, any call `c`, any key `k`:
+    (a) `old` holds `k` as the `' | '`-join of the entries `es` (a plain user
+        value is one entry) ⇒ afterwards `k` holds `old[k] + ' | ' + entry`, and
+        split at `' | '` that is `es` followed by exactly ONE more entry, the
+        call's (`''` if the call's key set lacks `k`), given no `'|'` inside
+        entries;
+    (b) `old` lacks `k` and the call writes it ⇒ `'' | entry` (the missing old
+        side is the one entry `''`);
+    (c) neither has `k` ⇒ still absent. -/
+theorem call_appends_one_entry (old : Attrs) (c : Call) (k : Key) :
+    (∀ es, get? old k = some (joinSep es) → es ≠ [] → (∀ x ∈ es, '|' ∉ x) →
+      (∀ v, get? c.raw k = some v → '|' ∉ v) →
+      ∃ s, get? (attributes c (some old)) k = some s ∧ s = joinSep es ++ sep ++ entryOf k c ∧
+        splitBar s = es ++ [entryOf k c]) ∧
+    (get? old k = none → hasKey (newAttrs c) k = true →
+      get? (attributes c (some old)) k = some ([] ++ sep ++ entryOf k c)) ∧
+    (get? old k = none → hasKey (newAttrs c) k = false → get? (attributes c (some old)) k = none) := by
+  have hm : get? (attributes c (some old)) k = stepS k (get? old k) c := get?_merge old c k
+  refine ⟨?_, ?_, ?_⟩
+  · intro es h0 hne hb0 hbc
+    have hstep : stepS k (some (joinSep es)) c = some (joinSep es ++ sep ++ entryOf k c) := by
+      unfold stepS entryOf
+      cases get? (newAttrs c) k <;> simp
+    refine ⟨_, by rw [hm, h0, hstep], rfl, ?_⟩
+    rw [← joinSep_snoc es _ hne]
+    apply splitBar_joinSep _ (by simp)
+    intro x hx
+    rcases List.mem_append.mp hx with h | h
+    · exact hb0 x h
+    · rw [List.mem_singleton] at h; subst h
+      exact bar_not_mem_entryOf c k hbc
+  · intro h0 hk
+    obtain ⟨v, hv⟩ := Option.isSome_iff_exists.mp hk
+    rw [hm, h0]
+    simp [stepS, entryOf, hv]
+  · intro h0 hk
+    have hn : get? (newAttrs c) k = none := by simpa [hasKey] using hk
+    rw [hm, h0]
+    simp [stepS, hn]
+
+/-- **chains of ARBITRARY length from ARBITRARY starting attrs** (a first call
+    that brings user attributes): a key the starting attrs hold as the join of
+    the entries `es₀` holds, after the chain `cs`, exactly `es₀` followed by one
+    entry per call, in call order -/
+theorem chain_appends_from (a₀ : Attrs) (cs : List Call) (k : Key) (es₀ : List Str)
+    (h0 : get? a₀ k = some (joinSep es₀)) (hne : es₀ ≠ []) (hb0 : ∀ x ∈ es₀, '|' ∉ x)
+    (hbar : ∀ c ∈ cs, ∀ v, get? c.raw k = some v → '|' ∉ v) :
+    ∃ s, (runChainFrom (some a₀) cs).bind (fun a => get? a k) = some s ∧
+      splitBar s = es₀ ++ cs.map (entryOf k) ∧ (splitBar s).length = es₀.length + cs.length := by
+  have hb : ∀ x ∈ es₀ ++ cs.map (entryOf k), '|' ∉ x := by
+    intro x hx
+    rcases List.mem_append.mp hx with h | h
+    · exact hb0 x h
+    · obtain ⟨c, hc, rfl⟩ := List.mem_map.mp h
+      exact bar_not_mem_entryOf c k (hbar c hc)
+  have hsp := splitBar_joinSep (es₀ ++ cs.map (entryOf k)) (by simp [hne]) hb
+  refine ⟨_, stored_from_present a₀ cs k es₀ h0 hne, hsp, ?_⟩
+  rw [hsp]; simp
+
+/-- … and a key the starting attrs LACK: nothing until the first call that
+    writes it, then `''` followed by one entry per call from that call on
+    (`runChain` = the case of no starting attrs is `entries_late`) -/
+theorem chain_late_from (a₀ : Attrs) (cs : List Call) (k : Key) (h0 : get? a₀ k = none) :
+    (runChainFrom (some a₀) cs).bind (fun a => get? a k)
+      = match cs.dropWhile (fun c => !(hasKey (newAttrs c) k)) with
+        | [] => none
+        | c :: r => some (joinSep ([] :: (c :: r).map (entryOf k))) :=
+  stored_from_absent a₀ cs k h0
+
+/-- a user attribute (`Key.other`) is written by no learner: every call appends
+    the empty entry to it -/
+theorem user_attribute_entries (a₀ : Attrs) (cs : List Call) (name : Str) (v : Str)
+    (h0 : get? a₀ (.other name) = some v) (hb0 : '|' ∉ v) :
+    ∃ s, (runChainFrom (some a₀) cs).bind (fun a => get? a (.other name)) = some s ∧
+      splitBar s = v :: List.replicate cs.length [] := by
+  have hraw : ∀ c : Call, get? c.raw (.other name) = none := by
+    intro c
+    cases c <;> simp [Call.raw, rawNdl, rawWh, envRaw, get?]
+  have hrep : ∀ l : List Call, l.map (entryOf (.other name)) = List.replicate l.length [] := by
+    intro l
+    induction l with
+    | nil => rfl
+    | cons c r ih =>
+      simp only [List.map_cons, List.length_cons, List.replicate_succ, List.cons.injEq]
+      exact ⟨entryOf_of_lacks c _ (hraw c), ih⟩
+  obtain ⟨s, h1, h2, _⟩ := chain_appends_from a₀ cs (.other name) [v] (by simpa [joinSep] using h0)
+    (by simp) (by simpa using hb0) (fun c _ v' hv' => by rw [hraw c] at hv'; cases hv')
+  refine ⟨s, h1, ?_⟩
+  rw [h2, hrep cs]; rfl
+
+/-! ## truthfulness: the learner model composed with the attribute model -/
+
+/-- **`ndl.ndl` reports what it did.**  For every chain `r₀ :: rest` of `ndl.ndl`
+    model calls with metadata (`ndlChainMeta`: each call = `ndlCall` — counting,
+    id maps, duplicate policy, chunk files, kernels, zero-event behaviour —
+    plus `_attributes` fed with the count THE LEARNER returned and the attrs of
+    the weights it was given; first call `weights=None`), every call with its
+    own file, policy, method, chunk sizes, learning parameters: IF the chain
+    runs through, the attrs of the final weights hold
+      * under `number_events`: entry `i` = the decimal string of the number of
+        events of file `i` (`es_i.length`),
+      * under `event_path`, `method`, `alpha`, `betas`, `lambda`: entry `i` = the
+        path, the method name and the `str()` forms of the parameters of call `i`
+    — one entry per call, in call order, read back by splitting at `' | '` and
+    stripping the padding.  `hs`: the supplied path and `str()` forms contain no
+    `'|'` and do not end in a space (file header; the count strings and method
+    names do so by themselves). -/
+theorem ndl_chain_reports {R : Type} [Add R] [Sub R] [Mul R] [Zero R]
+    (r₀ : NdlRun R) (rest : List (NdlRun R)) (s' : Option (LW R × Attrs))
+    (h : ndlChainMeta Generated.pyMagic Generated.pyVersion none (r₀ :: rest) = .ok s')
+    (hs : ∀ r ∈ r₀ :: rest, ∀ v ∈ [r.path, r.alphaRepr, r.betasRepr, r.lambdaRepr],
+      '|' ∉ v ∧ NoTrailingSpace v) :
+    ∃ w a, s' = some (w, a) ∧
+      (get? a .numberEvents).map entries = some ((r₀ :: rest).map (fun r => decStr r.events.length)) ∧
+      (get? a .eventPath).map entries = some ((r₀ :: rest).map (·.path)) ∧
+      (get? a .method).map entries = some ((r₀ :: rest).map (fun r => methodStr r.cfg.method)) ∧
+      (get? a .alpha).map entries = some ((r₀ :: rest).map (·.alphaRepr)) ∧
+      (get? a .betas).map entries = some ((r₀ :: rest).map (·.betasRepr)) ∧
+      (get? a .lambda).map entries = some ((r₀ :: rest).map (·.lambdaRepr)) := by
+  obtain ⟨h1, h2⟩ := ndlChainMeta_attrs Generated.pyMagic Generated.pyVersion (r₀ :: rest) none s' h
+  cases s' with
+  | none => simp at h2
+  | some x =>
+    obtain ⟨w, a⟩ := x
+    have ha : runChain (r₀.call :: rest.map NdlRun.call) = some a := by
+      simp only [Option.map_some, Option.map_none, List.map_cons] at h1
+      rw [runChain_eq_from, ← h1]
+    have key : ∀ (k : Key) (f : NdlRun R → Str),
+        (∀ r, get? r.call.raw k = some (f r)) →
+        (∀ r ∈ r₀ :: rest, '|' ∉ f r ∧ NoTrailingSpace (f r)) →
+        (get? a k).map entries = some ((r₀ :: rest).map f) := by
+      intro k f hraw hok
+      -- the calls of the chain, with the value each supplies for `k`
+      have hmem : ∀ c ∈ r₀.call :: rest.map NdlRun.call, ∃ r ∈ r₀ :: rest, c = r.call := by
+        intro c hc
+        rcases List.mem_cons.mp hc with rfl | hc
+        · exact ⟨r₀, by simp, rfl⟩
+        · obtain ⟨r, hr, rfl⟩ := List.mem_map.mp hc
+          exact ⟨r, by simp [hr], rfl⟩
+      have hsp := stored_chain_present r₀.call (rest.map NdlRun.call) k (by
+        rw [hasKey_newAttrs]; simp [hasKey, hraw r₀])
+      unfold stored at hsp
+      rw [ha] at hsp
+      simp only [Option.bind_some] at hsp
+      rw [hsp, Option.map_some]
+      congr 1
+      unfold entries
+      rw [splitBar_joinSep _ (by simp)]
+      · rw [← List.map_cons (f := NdlRun.call), List.map_map, List.map_map]
+        apply List.map_congr_left
+        intro r hr
+        simp only [Function.comp]
+        rw [entryOf_of_raw r.call k _ (hraw r), rstrip_padRight _ _ (hok r hr).2]
+      · intro x hx
+        obtain ⟨c, hc, rfl⟩ := List.mem_map.mp hx
+        obtain ⟨r, hr, rfl⟩ := hmem c hc
+        apply bar_not_mem_entryOf
+        intro v hv
+        rw [hraw r] at hv
+        cases hv
+        exact (hok r hr).1
+    refine ⟨w, a, rfl, ?_, ?_, ?_, ?_, ?_, ?_⟩
+    · exact key .numberEvents _ (fun r => r.call_raw.1)
+        (fun r _ => ⟨bar_not_mem_decStr _, noTrailingSpace_decStr _⟩)
+    · exact key .eventPath _ (fun r => r.call_raw.2.1) (fun r hr => hs r hr r.path (by simp))
+    · exact key .method _ (fun r => r.call_raw.2.2.1)
+        (fun r _ => ⟨bar_not_mem_methodStr _, noTrailingSpace_methodStr _⟩)
+    · exact key .alpha _ (fun r => r.call_raw.2.2.2.1) (fun r hr => hs r hr r.alphaRepr (by simp))
+    · exact key .betas _ (fun r => r.call_raw.2.2.2.2.1) (fun r hr => hs r hr r.betasRepr (by simp))
+    · exact key .lambda _ (fun r => r.call_raw.2.2.2.2.2) (fun r hr => hs r hr r.lambdaRepr (by simp))
+
+/-- the count itself: whatever `ndl.ndl`'s model returns as the number of
+    trained events IS the number of events of the file — no hypothesis -/
+theorem ndl_count_is_actual {R : Type} [Add R] [Sub R] [Mul R] [Zero R] (cfg : NdlCfg) (alpha β₁ β₂ lam : R)
+    (W0 : Option (LW R)) (es : List (Event String String)) (w : LW R) (n : Nat)
+    (h : ndlCall Generated.pyMagic Generated.pyVersion cfg alpha β₁ β₂ lam W0 es = .ok (w, n)) :
+    n = es.length :=
+  ndlCall_count _ _ cfg alpha β₁ β₂ lam W0 es w n h
+
+/-- … and from weights that already carry attrs (any earlier calls, user
+    attributes): the chain's attrs are the attribute model's chain from those
+    attrs over the calls with the ACTUAL counts, so `chain_appends_from` /
+    `chain_late_from` / `user_attribute_entries` apply to it -/
+theorem ndl_chain_attrs_from {R : Type} [Add R] [Sub R] [Mul R] [Zero R]
+    (rs : List (NdlRun R)) (s s' : Option (LW R × Attrs))
+    (h : ndlChainMeta Generated.pyMagic Generated.pyVersion s rs = .ok s') :
+    s'.map (·.2) = runChainFrom (s.map (·.2)) (rs.map NdlRun.call) :=
+  (ndlChainMeta_attrs _ _ rs s s' h).1
+
+/-! ### lemmas (not property theorems) -/
+
+/-- (definitional) what `ndl._attributes` reports under the six keys of the property: the
     call's own arguments; `alpha` is `'varying'` for a non-scalar alpha. -/
 theorem raw_ndl (a : NdlArgs) :
     get? (Call.ndl a).raw .numberEvents = some a.numberEvents ∧
@@ -160,7 +369,7 @@ theorem raw_ndl (a : NdlArgs) :
     get? (Call.ndl a).raw .method = some a.method := by
   simp [Call.raw, rawNdl, get?, alphaStr]
 
-/-- what `wh._attributes` reports: no `alpha`, no `betas`; `lambda` holds eta. -/
+/-- (definitional) what `wh._attributes` reports: no `alpha`, no `betas`; `lambda` holds eta. -/
 theorem raw_wh (a : WhArgs) :
     get? (Call.wh a).raw .numberEvents = some a.numberEvents ∧
     get? (Call.wh a).raw .eventPath = some a.eventPath ∧
@@ -170,11 +379,14 @@ theorem raw_wh (a : WhArgs) :
     get? (Call.wh a).raw .method = some a.method := by
   simp [Call.raw, rawWh, envRaw, get?]
 
-/-- **save_load_identity / continue_after_load (model level only).** With the
-    netCDF round trip taken as the identity, inserting it anywhere in a chain
-    changes nothing: continuing from the loaded weights is continuing from the
-    unsaved weights.  That the real `to_netcdf`/`open_dataarray` *is* the
-    identity is NOT proved (cannot be modelled) — differential run only. -/
+/-- (definitional — a MODELLING CONVENTION, not a property theorem) the model
+    takes the netCDF round trip to be the identity (`Op.saveLoad => acc`), so
+    inserting it anywhere in a chain changes nothing by construction.  That the
+    real `to_netcdf` / `open_dataarray` IS the identity on values, labels and
+    attrs, and that learning continues from the loaded weights with identical
+    results, is NOT proved (netCDF4/HDF5/xarray cannot be modelled; the attrs
+    model carries no weights) — those clauses of C16 are decided by the
+    differential run only. -/
 theorem save_load_identity (ops : List Op) : runOps ops = runChain (calls ops) :=
   runOps_eq_runChain ops
 
@@ -226,6 +438,94 @@ example : ∃ s, stored [ndl1, dict2, ndl1] .numberEvents = some s ∧
     · have : v = _ := (Option.some.inj hv).symm
       subst this
       decide +kernel
+
+/-- `entries_count` with EVERY hypothesis instantiated on the three-call chain
+    ndl → dict_ndl → ndl, for `number_events` and for `event_path` -/
+example : ∃ s, stored [ndl1, dict2, ndl1] .numberEvents = some s ∧
+    splitBar s = [ndl1, dict2, ndl1].map (entryOf .numberEvents) ∧ (splitBar s).length = 3 := by
+  obtain ⟨s, hs⟩ : ∃ s, stored [ndl1, dict2, ndl1] .numberEvents = some s :=
+    Option.isSome_iff_exists.mp (by decide +kernel)
+  refine ⟨s, hs, entries_count ndl1 [dict2, ndl1] .numberEvents s (by decide) hs ?_⟩
+  intro c hc v hv
+  simp only [List.mem_cons, List.not_mem_nil, or_false] at hc
+  rcases hc with rfl | rfl | rfl <;>
+    · have : v = _ := (Option.some.inj hv).symm
+      subst this
+      decide +kernel
+
+/-- `entries_count_mixed` with every hypothesis instantiated on the MIXED chain
+    ndl → wh → ndl at the key `alpha` (written by the first call, lacked by wh) -/
+example : ∃ s, stored [ndl1, wh1, ndl1] .alpha = some s ∧
+    splitBar s = [ndl1, wh1, ndl1].map (entryOf .alpha) ∧ (splitBar s).length = 2 + 1 := by
+  refine entries_count_mixed ndl1 [wh1, ndl1] .alpha (by decide +kernel) ?_
+  intro c hc v hv
+  simp only [List.mem_cons, List.not_mem_nil, or_false] at hc
+  rcases hc with rfl | rfl | rfl
+  · have : v = _ := (Option.some.inj hv).symm
+    subst this; decide +kernel
+  · have hn : get? wh1.raw Key.alpha = none := by decide +kernel
+    rw [hn] at hv; cases hv
+  · have : v = _ := (Option.some.inj hv).symm
+    subst this; decide +kernel
+
+/-- `chain_appends_from` / `user_attribute_entries` instantiated: the first call
+    is handed weights with the user attribute `note = "my run"` and an earlier
+    `number_events = "5"`; two calls follow -/
+example :
+    ∃ s, (runChainFrom (some [(.other "note".toList, "my run".toList), (.numberEvents, "5".toList)])
+        [ndl1, dict2]).bind (fun a => get? a .numberEvents) = some s ∧
+      splitBar s = ["5".toList] ++ [ndl1, dict2].map (entryOf .numberEvents) ∧
+      (splitBar s).length = 1 + 2 := by
+  refine chain_appends_from _ [ndl1, dict2] .numberEvents ["5".toList] (by decide +kernel) (by decide)
+    (by decide) ?_
+  intro c hc v hv
+  simp only [List.mem_cons, List.not_mem_nil, or_false] at hc
+  rcases hc with rfl | rfl <;>
+    · have : v = _ := (Option.some.inj hv).symm
+      subst this
+      decide +kernel
+
+example :
+    ∃ s, (runChainFrom (some [(.other "note".toList, "my run".toList), (.numberEvents, "5".toList)])
+        [ndl1, dict2]).bind (fun a => get? a (.other "note".toList)) = some s ∧
+      splitBar s = ["my run".toList, [], []] :=
+  user_attribute_entries _ [ndl1, dict2] "note".toList "my run".toList (by decide +kernel) (by decide)
+
+/-- the composed theorem `ndl_chain_reports` with EVERY hypothesis instantiated:
+    two `ndl.ndl` model calls over ℤ — 2 events (threading, `True`), then 3 events
+    (OpenMP, `False`, a new cue and a new outcome) -/
+def runA : NdlRun ℤ :=
+  { cfg := ⟨.dedup, .threading, 1, 2⟩, alpha := 1, β₁ := 2, β₂ := 3, lam := 5,
+    path := "a.tab.gz".toList, events := [⟨["a", "b", "a"], ["x"]⟩, ⟨["b"], ["y"]⟩],
+    alphaRepr := "1".toList, betasRepr := "(2, 3)".toList, lambdaRepr := "5".toList, env := env0 }
+
+def runB : NdlRun ℤ :=
+  { cfg := ⟨.keep, .openmp, 2, 2⟩, alpha := 2, β₁ := 1, β₂ := 1, lam := 7,
+    path := "dir/b.tab.gz".toList, events := [⟨["c"], ["x"]⟩, ⟨["a", "a"], ["z"]⟩, ⟨["b"], ["y"]⟩],
+    alphaRepr := "2".toList, betasRepr := "(1, 1)".toList, lambdaRepr := "7".toList, env := env0 }
+
+def isOk {ε α : Type} : Except ε α → Bool
+  | .ok _ => true
+  | .error _ => false
+
+example : ∃ w a, ndlChainMeta Generated.pyMagic Generated.pyVersion none [runA, runB] = .ok (some (w, a)) ∧
+    (get? a .numberEvents).map entries = some ["2".toList, "3".toList] ∧
+    (get? a .eventPath).map entries = some ["a.tab.gz".toList, "dir/b.tab.gz".toList] ∧
+    (get? a .method).map entries = some ["threading".toList, "openmp".toList] ∧
+    (get? a .alpha).map entries = some ["1".toList, "2".toList] ∧
+    (get? a .betas).map entries = some ["(2, 3)".toList, "(1, 1)".toList] ∧
+    (get? a .lambda).map entries = some ["5".toList, "7".toList] := by
+  have hok : isOk (ndlChainMeta Generated.pyMagic Generated.pyVersion none [runA, runB]) = true := by
+    decide +kernel
+  cases hc : ndlChainMeta Generated.pyMagic Generated.pyVersion none [runA, runB] with
+  | error e => rw [hc] at hok; cases hok
+  | ok s' =>
+    obtain ⟨w, a, rfl, h1, h2, h3, h4, h5, h6⟩ := ndl_chain_reports runA [runB] s' hc (by
+      intro r hr v hv
+      simp only [List.mem_cons, List.not_mem_nil, or_false] at hr hv
+      rcases hr with rfl | rfl <;> rcases hv with rfl | rfl | rfl | rfl <;>
+        exact ⟨by decide, by unfold NoTrailingSpace; decide⟩)
+    exact ⟨w, a, rfl, h1, h2, h3, h4, h5, h6⟩
 
 /-- mixing the key sets, key written by the first call: wh lacks `alpha`, its
     slot is the empty entry. -/
